@@ -199,6 +199,11 @@ func newOperator(expr parser.Expr, storage *engstore.SelectorPool, opts *query.O
 		return exchange.NewConcurrent(next, 2), nil
 
 	case *parser.BinaryExpr:
+		// Function and grouping hints describe an operation over a single
+		// metric; like the Prometheus engine, stop them at a binary expression.
+		hints.Func = ""
+		hints.Grouping = nil
+		hints.By = false
 		if e.LHS.Type() == parser.ValueTypeScalar || e.RHS.Type() == parser.ValueTypeScalar {
 			return newScalarBinaryOperator(e, storage, opts, hints)
 		}
@@ -206,6 +211,9 @@ func newOperator(expr parser.Expr, storage *engstore.SelectorPool, opts *query.O
 		return newVectorBinaryOperator(e, storage, opts, hints)
 
 	case *parser.ParenExpr:
+		// Grouping hints only apply to the direct operand of an aggregation.
+		hints.Grouping = nil
+		hints.By = false
 		return newOperator(e.Expr, storage, opts, hints)
 
 	case *parser.StringLiteral:
@@ -213,6 +221,9 @@ func newOperator(expr parser.Expr, storage *engstore.SelectorPool, opts *query.O
 		return nil, errors.Wrapf(parse.ErrNotImplemented, "got: %s", e)
 
 	case *parser.UnaryExpr:
+		// Grouping hints only apply to the direct operand of an aggregation.
+		hints.Grouping = nil
+		hints.By = false
 		next, err := newOperator(e.Expr, storage, opts, hints)
 		if err != nil {
 			return nil, err
@@ -229,6 +240,9 @@ func newOperator(expr parser.Expr, storage *engstore.SelectorPool, opts *query.O
 		}
 
 	case *parser.StepInvariantExpr:
+		// Grouping hints only apply to the direct operand of an aggregation.
+		hints.Grouping = nil
+		hints.By = false
 		switch t := e.Expr.(type) {
 		case *parser.NumberLiteral:
 			return scan.NewNumberLiteralSelector(model.NewVectorPool(stepsBatch), opts, t.Val), nil
